@@ -16,7 +16,7 @@ from parglare.tables.persist import table_to_serializable
 from parglare.exceptions import SRConflicts, RRConflicts
 
 
-def second(cls, mk, tb):
+def second(cls, mk, tb, inputs=()):
     """table hash and conflict report of a second construction in the same directory (it loads the cached
     table the first one wrote)"""
     try:
@@ -26,15 +26,30 @@ def second(cls, mk, tb):
         return {"raises": type(e).__name__,
                 "conflicts": [[c.state.state_id, c.term.fqn, [q.prod_id for q in c.productions]] for c in e.conflicts]}
     ser = json.dumps(table_to_serializable(p.table), sort_keys=True)
-    return {"table": hashlib.sha256(ser.encode()).hexdigest(),
-            "conflicts": [[c.state.state_id, c.term.fqn, [q.prod_id for q in c.productions]]
-                          for c in p.table.sr_conflicts + p.table.rr_conflicts]}
+    out = {"table": hashlib.sha256(ser.encode()).hexdigest(),
+           "conflicts": [[c.state.state_id, c.term.fqn, [q.prod_id for q in c.productions]]
+                         for c in p.table.sr_conflicts + p.table.rr_conflicts]}
+    if cls is GLRParser:
+        # forest[i] must mean the same tree with the loaded table as with the calculated one
+        forests = []
+        for text in inputs:
+            try:
+                f = p.parse(text)
+                n = f.solutions
+                forests.append([n if n < 10 ** 9 else str(n)] + [f[i].to_str() for i in range(min(n, 25))])
+            except Exception as e:
+                forests.append([type(e).__name__, str(e)[:300]])
+        out["forests"] = hashlib.sha256(json.dumps(forests).encode()).hexdigest()
+    return out
 
 
 def observe(spec):
     out = {}
     tmp = None
     try:
+        if spec.get("text") and not spec.get("only"):
+            # single grammars go through a file too, so that the table cache is written and loaded
+            spec = dict(spec, files={"g.pg": spec["text"]}, root="g.pg")
         if spec.get("files"):
             tmp = tempfile.mkdtemp(prefix="pv-c16-")
             for name, text in spec["files"].items():
@@ -72,7 +87,7 @@ def observe(spec):
                                      for c in p.table.sr_conflicts + p.table.rr_conflicts],
                        "order": [[s.fqn for s in st.actions] for st in p.table.states][:40]}
                 if tmp:
-                    obs["second_construction"] = second(cls, mk, tb)
+                    obs["second_construction"] = second(cls, mk, tb, spec["inputs"])
                     pgc = [f for f in os.listdir(tmp) if f.endswith(".pgc")]
                     obs["pgc"] = {f: hashlib.sha256(open(os.path.join(tmp, f), "rb").read()).hexdigest() for f in sorted(pgc)}
                 if cls is GLRParser:
